@@ -1,2 +1,8 @@
 import Glas.Props.C17
-#print axioms Glas.Props.C17.placeholder
+#print axioms Glas.Props.C17.moduleName_spec
+#print axioms Glas.Props.C17.moduleName_other_ext
+#print axioms Glas.Props.C17.assignRoot_innermost
+#print axioms Glas.Props.C17.assignRoot_total
+#print axioms Glas.Props.C17.isLocal_iff
+#print axioms Glas.Props.C17.free_standing_none
+#print axioms Glas.Props.C17.projectParent_has_toml
